@@ -202,9 +202,17 @@ func (r *rollbackMitigation) startObserve(groupID int) {
 	r.loadVbUUIDMap()
 
 	if r.closed {
-		// stopped while the failover logs were still being collected: Stop() did not wait for this
-		// observer (it had no timer yet), so it must not start polling now
+		// stopped while the failover logs were still being collected: this observer must not start
+		// polling now. Stop() asks the observer to stop whenever it finds a timer; at the very first
+		// start there is none, after a reconfigure the previous observer's timer is still there and
+		// Stop() is waiting for the answer
 		logger.Log.Debug("closed before observe started")
+
+		if r.observeTimer != nil {
+			<-r.observeCloseCh
+			r.observeCloseDoneCh <- struct{}{}
+		}
+
 		return
 	}
 
